@@ -8,7 +8,7 @@
 From Coq Require Import List Arith Bool NArith.
 From FFSM2 Require Import Model.TaskList Model.BitArray Model.BitStream Model.Plan Model.Ancestors Model.Machine
   Proofs.BitArrayProofs Proofs.TaskListProofs Proofs.TaskListRun Proofs.PlanProofs Proofs.MachineFrame Proofs.MachinePlan Proofs.MachineLife Proofs.GuardProofs Proofs.CycleProofs Proofs.PlanStep
-  Proofs.SerialProofs Proofs.LogProofs Proofs.MachineTop Model.Multi Generated.InitFacts Proofs.ConstructProofs Proofs.LifeMonitor Proofs.ActivationRounds Proofs.IndexSafety Proofs.FeatureProofs Model.Script Proofs.Contract Proofs.Histories Proofs.StatusBits Proofs.Worlds Model.Cxx Generated.LeafCode Proofs.LeafTactics Proofs.LeafConsts Proofs.LeafCodeTaskList Proofs.LeafCodeStream Proofs.LeafCodeWide Proofs.LeafCodePlan Proofs.LeafCodePlanRemove Proofs.LeafCodePlanAppend Proofs.LeafCodePlanInv.
+  Proofs.SerialProofs Proofs.LogProofs Proofs.MachineTop Model.Multi Generated.InitFacts Proofs.ConstructProofs Proofs.LifeMonitor Proofs.ActivationRounds Proofs.IndexSafety Proofs.FeatureProofs Model.Script Proofs.Contract Proofs.Histories Proofs.StatusBits Proofs.Worlds Model.Cxx Generated.LeafCode Proofs.LeafTactics Proofs.LeafConsts Proofs.LeafCodeTaskList Proofs.LeafCodeStream Proofs.LeafCodeWide Proofs.LeafCodePlan Proofs.LeafCodePlanRemove Proofs.LeafCodePlanAppend Proofs.LeafCodePlanChange Proofs.LeafCodePlanInv.
 Import ListNotations.
 
 (* every history of plan edits, any length: returned values (append succeeded / refused, the tasks an iterating removal
@@ -308,6 +308,20 @@ Theorem C10_source_plan_append_is_the_model :
          (let '(d', b) := plan_append P cap d o dst in Some (Some (b2z b), pd_fields d', pd_arrays d')).
 Proof. exact (src_Plan_append_inv). Qed.
 Print Assumptions C10_source_plan_append_is_the_model.
+
+(* ... and so does the public entry point plan.change(origin, destination), whose body `return append(origin,
+   destination);` the translator inlines as well: the term is everything a call of change() executes *)
+Theorem C10_source_plan_change_is_the_model :
+  forall (P : Type) (cap : nat) (d : plan_data P) (order : list nat) (o dst : nat),
+         PlanInv P cap d order ->
+         o <= 255 ->
+         dst <= 255 ->
+         result
+           (run leaf_ftable (pl_consts cap) PlanT__change [BinInt.Z.of_nat o; BinInt.Z.of_nat dst]
+              (pd_fields d) (pd_arrays d)) =
+         (let '(d', b) := plan_append P cap d o dst in Some (Some (b2z b), pd_fields d', pd_arrays d')).
+Proof. exact (src_Plan_change_inv). Qed.
+Print Assumptions C10_source_plan_change_is_the_model.
 
 (* the tie to the source, by proof (DESIGN.md 4.7): the body of PlanT<Args>::remove(index) as tools/leafcode.py
    translates it from clang's typed AST of /repo's current plan_1.inl on every run - the member functions of the sub-
